@@ -1,5 +1,7 @@
 import GapicModel.Driver.Base
 import GapicModel.Model.Samples
+import GapicModel.Pinned.Funcs
+import GapicModel.Pinned.Tables
 open Lean GapicModel GapicModel.Regex
 namespace GapicModel.Driver
 
@@ -118,7 +120,32 @@ def opC14Request (j : Json) : Except String Json := do
         ("entries", jarr (es.map fun e => Json.mkObj [("field", jstr (dotted e.path)), ("value", valueJson e.value)])),
         ("transformed", tr)])
 
+/-- ids / names of one sample; `snake` is the machine-translated `to_snake_case` -/
+def opC14Names (j : Json) : Except String Json := do
+  let tags ← (← getArrL j "tags").mapM fun v => do pure (← v.getStr?).toList
+  let tag ← getStrL j "tag"
+  let h ← getStrL j "hash"
+  let rpc ← getStrL j "rpc"
+  let internal ← getBoolK j "internal"
+  let snake := Pinned.Funcs.to_snake_case
+  let kw := Pinned.pyKeywords.map String.toList
+  let mk (t : List Char) : Spec := ⟨[], [], .grpc, t⟩
+  let id := sampleId (fun _ => h) (tags.map mk) (mk tag)
+  pure (Json.mkObj [("id", jstr id), ("file", jstr (sampleFile snake id)), ("function", jstr (sampleFunction snake rpc)),
+    ("called_method", jstr (calledMethod snake rpc internal)),
+    ("metadata_method", jstr (metadataMethod snake kw rpc internal))])
+
+def opC14Params (j : Json) : Except String Json := do
+  let cs ← getBoolK j "cs"
+  let it ← getStrL j "input_type"
+  let fl ← (← getArrL j "flattened").mapM fun p => do
+    match (← p.getArr?).toList with
+    | [Json.str n, Json.str t] => pure (⟨n.toList, t.toList⟩ : Param)
+    | _ => throw "bad param"
+  pure (Json.mkObj [("params", jarr ((metadataParams cs it fl).map fun p => jarr [jstr p.name, jstr p.type]))])
+
 def opsC14 : List (String × (Json → Except String Json)) :=
-  [("c14.specs", opC14Specs), ("c14.form", opC14Form), ("c14.segments", opC14Segments), ("c14.request", opC14Request)]
+  [("c14.specs", opC14Specs), ("c14.form", opC14Form), ("c14.segments", opC14Segments), ("c14.request", opC14Request),
+   ("c14.names", opC14Names), ("c14.params", opC14Params)]
 
 end GapicModel.Driver
